@@ -1,5 +1,6 @@
 import RF.Model.Proto
 import RF.Model.StringFmt
+import RF.Model.CommentFmt
 /-!
 Line-protocol operations for `src/string.rs` (`RF/Model/StringFmt.lean`).
 
@@ -20,10 +21,21 @@ Line-protocol operations for `src/string.rs` (`RF/Model/StringFmt.lean`).
   cmt.refines <line_start> <orig> <wrapped>          -> ok | bad    ORACLE: the wrapped words are the original words,
                                                         some of them cut after a punctuation character
 
+  cmt.style <orig> <normalize>                       -> d | t | o | s | b | e | c:<opener>          `comment_style`
+  cmt.lefttrim <line> <style_of>                     -> <text>:<0|1>     `left_trim_comment_line(line, &comment_style(style_of, false))`
+  cmt.hasurl <s>  /  cmt.table <s>                   -> 0 | 1            `has_url` (comment.rs), `is_table_item`
+  cmt.trim2 <s> <is_doc>                             -> <text>           `trim_end_unless_two_whitespaces`
+  cmt.marker <trimmed>                               -> none | <n>       `ItemizedBlock::get_marker_length`
+  cmt.inner <orig> <block_style> <width> <block_indent> <alignment> <offset> <wrap_comments> <normalize_comments>
+            <max_width> <hard_tabs> <tab_spaces> <is_doc_comment>
+                                                     -> outside | panic | S:<text>   `rewrite_comment_inner` with the
+                                                        style `comment_style(orig, false)`; `outside` = a code block or an
+                                                        itemized block is involved (not modelled)
+
 numbers decimal, booleans 0|1, texts hex of UTF-8 (`-` empty), lists `,`-joined (`_` empty)
 -/
 namespace RF.Driver.StringFmt
-open RF.Proto RF.StringFmt
+open RF.Proto RF.StringFmt RF.CommentFmt
 
 def decBool : String → Option Bool
   | "0" => some false | "1" => some true | _ => none
@@ -122,6 +134,50 @@ def handle (op : String) (args : List String) : Option String :=
       let o ← decChars o
       let t ← decChars t
       pure (if refinesWords (words o) (commentWords ls t) then "ok" else "bad")).getD "err"
+  | "cmt.style", [o, n] => some <| (do
+      let o ← decChars o
+      let n ← decBool n
+      pure (match commentStyle o n with
+        | .doubleSlash => "d" | .tripleSlash => "t" | .doc => "o" | .singleBullet => "s"
+        | .doubleBullet => "b" | .exclamation => "e" | .custom op => "c:" ++ encChars op)).getD "err"
+  | "cmt.lefttrim", [l, so] => some <| (do
+      let l ← decChars l
+      let so ← decChars so
+      pure (match leftTrimCommentLine l (commentStyle so false) with
+        | none => "panic"
+        | some (t, b) => s!"{encChars t}:{bit b}")).getD "err"
+  | "cmt.hasurl", [t] => some <| (do
+      let t ← decChars t
+      pure (bit (hasUrl t))).getD "err"
+  | "cmt.table", [t] => some <| (do
+      let t ← decChars t
+      pure (bit (isTableItem t))).getD "err"
+  | "cmt.trim2", [t, d] => some <| (do
+      let t ← decChars t
+      let d ← decBool d
+      pure (encChars (trimEndUnlessTwoWhitespaces t d))).getD "err"
+  | "cmt.marker", [t] => some <| (do
+      let t ← decChars t
+      pure (match markerLength t with | none => "none" | some n => toString n)).getD "err"
+  | "cmt.inner", [o, bs, w, b, a, off, wr, no, mw, ht, ts, dc] => some <| (do
+      let o ← decChars o
+      let bs ← decBool bs
+      let w ← w.toNat?
+      let b ← b.toNat?
+      let a ← a.toNat?
+      let off ← off.toNat?
+      let wr ← decBool wr
+      let no ← decBool no
+      let mw ← mw.toNat?
+      let ht ← decBool ht
+      let ts ← ts.toNat?
+      let dc ← decBool dc
+      let cfg : Cfg := { wrap := wr, normalize := no,
+                         shapeCfg := { hard_tabs := ht, tab_spaces := ts, max_width := mw, comment_width := 80 } }
+      pure (match rewriteCommentInner o bs (commentStyle o false) ⟨w, ⟨b, a⟩, off⟩ cfg dc with
+        | .outside => "outside"
+        | .panic => "panic"
+        | .ok s => "S:" ++ encChars s)).getD "err"
   | _, _ => none
 
 end RF.Driver.StringFmt
